@@ -631,19 +631,14 @@ def executeLine (O : Oracles) (qy : Query) (idx : JoinIndex) (withResult : Bool)
       .ok (if withResult then updateLimit false q.limit es none else (es, { result := none, reachedLimit := false }))
     else do
       let envs ← lineEnvs qy idx false l
-      if withResult then
-        -- per partner: update, then (if it updated) a full result; the results are concatenated
-        let rec go (envs : List (Env × List String)) (st : AggState) (acc : Option RowOut) : Outcome (AggState × Option RowOut) :=
-          match envs with
-          | [] => .ok (st, acc)
-          | (env, _) :: rest => do
-            let (st', u) ← aggUpdateRow O q st env
-            if u then do
-              let (st'', out) ← aggResult O q st'
-              go rest st'' (extendOut acc (some out))
-            else go rest st' acc
-        let (st, r) ← go envs es.agg none
-        pure (updateLimit false q.limit { es with agg := st } r)
+      if withResult then do
+        -- all partners of the line update the aggregates; then, iff one of them updated, ONE full result
+        -- (`updated |= execute_update(..)?` per partner, `if updated { joined(Some(execute_result()?)) }`)
+        let (st, u) ← aggEnvs O q envs es.agg false
+        if u then do
+          let (st', out) ← aggResult O q st
+          pure (updateLimit false q.limit { es with agg := st' } (some out))
+        else pure (updateLimit false q.limit { es with agg := st } none)
       else do
         let (st, _) ← aggEnvs O q envs es.agg false
         pure ({ es with agg := st }, { result := none, reachedLimit := false })
